@@ -83,6 +83,7 @@ for _d in _os.listdir(_os.path.join(_os.path.dirname(_os.path.abspath(__file__))
 def c16(ctx):
     ctx.gotest("tracer", "^TestVerifC16", race=True, timeout=3000)
     ctx.gotest("refclient", "^TestVerifC16", race=True, timeout=1200)
+    ctx.gotest("cc", "^TestVerifC16", race=True, timeout=1200)
 
 
 def c10(ctx):
